@@ -35,6 +35,10 @@ def summarize(ops, limit=12):
             out.append("insert_multiple(%d pts %s via %s%s)" % (len(op[1]), op[3], op[4], " bad@%s" % op[5] if op[5] is not None else ""))
         elif k in ("remove_hit", "probe_hit", "update_hit"):
             out.append("%s(point#%d %s op%d comb%d with %s, m=%r%s)" % (k, op[1][0], op[1][1], op[1][2], op[1][3], qast.show(op[2]), op[3], ", %s" % {s_: (v if not hasattr(v, "isoformat") else v.isoformat()) for s_, v in op[4].items()} if k == "update_hit" else ""))
+        elif k == "insert_stamped":
+            out.append("insert_stamped(%d x %s without time via %s%s)" % (op[2], op[1]["measurement"], op[3], " + non-Point" if op[4] else ""))
+        elif k == "probe_twin":
+            out.append("probe_twin(%s then %s, m=%r via %s)" % (qast.show(op[1]), qast.show(op[2]), op[3], op[-1]))
         elif k in ("remove", "probe"):
             out.append("%s(%s, m=%r via %s)" % (k, qast.show(op[1]), op[2], op[-1]))
         elif k == "update":
